@@ -275,6 +275,25 @@ class Exec:
             ran = self.tick(ev[1])
             self.events.append({'ev': ev, 'ran': ran})
             return None
+        if kind == 'withdraw':
+            # the caller gives up waiting for its last pending kill (asyncio.wait_for(proc.kill(), t) timing out cancels
+            # the future that kill() returned): that request is withdrawn, the process stays controllable
+            done = False
+            for rec in reversed(self.world.futs):
+                fut = rec.get('_fut')
+                if rec['what'] == 'kill' and fut is not None and not fut.done():
+                    with self.loop.as_running():
+                        fut.cancel()
+                    for other in self.world.futs:
+                        # every kill request that is pending on this live process - repeated kill() calls and the one
+                        # a cancelled process future turns into - is carried by this one action: they share its fate
+                        if other['what'] in ('kill', 'cancel'):
+                            other['withdrawn'] = True
+                    done = True
+                    break
+            self.events.append({'ev': ev, 'done': done})
+            self.sample(kind)
+            return None
         if kind == 'cancel_task':
             # the caller gives up waiting (e.g. asyncio.wait_for timed out): the task stepping the process is cancelled
             if self.task is not None and not self.task.done():
